@@ -909,6 +909,28 @@ func (p *Prog) liftToCallers(at ssa.Instruction, pred func(fn *ssa.Function, at 
 	if pred(fn, at) {
 		return true
 	}
+	if depth < 2 && fn.Parent() != nil {
+		// a function literal handed to a pure invoker (x.locked(func(){…})) runs where the invoker is called
+		var site ssa.Instruction
+		allInstrs(fn.Parent(), func(ins ssa.Instruction) {
+			cc := instrCall(ins)
+			if cc == nil || site != nil {
+				return
+			}
+			if _, isCall := ins.(*ssa.Call); !isCall {
+				return
+			}
+			for _, ic := range invokedClosureArgs(p, cc) {
+				if ic.closure == fn {
+					site = ins
+				}
+			}
+		})
+		if site != nil {
+			return p.liftToCallers(site, pred, depth+1)
+		}
+		return false
+	}
 	if depth >= 2 || fn.Parent() != nil || (fn.Object() != nil && fn.Object().Exported()) {
 		return false
 	}
